@@ -241,3 +241,60 @@ for _ax in ('z', '236', '122'):
             h.true('rotation magnitude <= pi', nsq(tw.w) <= math.pi ** 2 * (1 + 1e-9))
             h.eq('Twist3(T).exp() = T', base.trexp(tw.S), T, tol=1e-6, scale=1 + nsq(t))
             h.same('Twist3(SE3) same as SE3.Twist3()', Twist3(X).S, tw.S)
+
+
+# ----------------------------------------------------------------------------- table (N x 3 / vector) forms of the named constructors
+
+def _rows(h):
+    """one symbolic row and one concrete row (two symbolic rows only square the paths; the options are the subject)"""
+    a, b, c = h.angle('a', -3.1, 3.1), h.angle('b', -1.5, 1.5), h.angle('c', -3.1, 3.1)
+    return [[a, b, c], [0.3, -0.4, 0.5]]
+
+
+def _table(h, rows, unit):
+    conv = (lambda x: h.deg(x) if not isinstance(x, float) else math.degrees(x)) if unit == 'deg' else (lambda x: x)
+    return np.array([[conv(x) for x in r] for r in rows], dtype=object if h.sym or h.mode == 'concolic' else float)
+
+
+TABLE_CTORS = {}
+for _o in ('zyx', 'xyz', 'yxz'):
+    for _u in ('rad', 'deg'):
+        TABLE_CTORS[f'SO3.RPY:{_o}:{_u}'] = (lambda t, o=_o, u=_u: SO3.RPY(t, order=o, unit=u), lambda r, o=_o, u=_u: base.rpy2r(r, order=o, unit=u))
+        TABLE_CTORS[f'SE3.RPY:{_o}:{_u}'] = (lambda t, o=_o, u=_u: SE3.RPY(t, order=o, unit=u), lambda r, o=_o, u=_u: base.rpy2tr(r, order=o, unit=u))
+for _u in ('rad', 'deg'):
+    TABLE_CTORS[f'SO3.Eul:{_u}'] = (lambda t, u=_u: SO3.Eul(t, unit=u), lambda r, u=_u: base.eul2r(r, unit=u))
+    TABLE_CTORS[f'SE3.Eul:{_u}'] = (lambda t, u=_u: SE3.Eul(t, unit=u), lambda r, u=_u: base.eul2tr(r, unit=u))
+
+for _name, (_mk, _ref) in TABLE_CTORS.items():
+    @claim(f'table-ctor:{_name}')
+    def _(h, name=_name, mk=_mk, ref=_ref):
+        """N x 3 table of angles: element i is what the single-row call gives for row i, with the same order / unit options"""
+        unit = name.rsplit(':', 1)[1]
+        rows = _rows(h)
+        tab = _table(h, rows, unit)
+        X = mk(tab)
+        h.true('one value per row', len(X) == 2)
+        for i in range(2):
+            h.same(f'element {i} = single-row result', X.data[i], ref(list(tab[i])))
+        h.same('single row through the class', mk(list(tab[0])).A, ref(list(tab[0])))
+
+
+VEC_CTORS = {}
+for _ax in 'xyz':
+    for _u in ('rad', 'deg'):
+        VEC_CTORS[f'SO3.R{_ax}:{_u}'] = (lambda v, ax=_ax, u=_u: getattr(SO3, 'R' + ax)(v, unit=u), lambda x, ax=_ax, u=_u: getattr(base, 'rot' + ax)(x, unit=u))
+        VEC_CTORS[f'SE3.R{_ax}:{_u}'] = (lambda v, ax=_ax, u=_u: getattr(SE3, 'R' + ax)(v, unit=u), lambda x, ax=_ax, u=_u: getattr(base, 'trot' + ax)(x, unit=u))
+for _u in ('rad', 'deg'):
+    VEC_CTORS[f'SO2:{_u}'] = (lambda v, u=_u: SO2(v, unit=u), lambda x, u=_u: base.rot2(x, unit=u))
+
+for _name, (_mk, _ref) in VEC_CTORS.items():
+    @claim(f'vector-ctor:{_name}')
+    def _(h, name=_name, mk=_mk, ref=_ref):
+        """vector of angles: element i is the single-angle result with the same unit"""
+        unit = name.rsplit(':', 1)[1]
+        a = h.angle('a', -6.29, 6.29)
+        vals = [h.deg(a), 30.0] if unit == 'deg' else [a, 0.5]
+        X = mk(np.array(vals, dtype=object if h.sym or h.mode == 'concolic' else float))
+        h.true('one value per angle', len(X) == 2)
+        for i in range(2):
+            h.same(f'element {i}', X.data[i], ref(vals[i]))
